@@ -12,6 +12,7 @@ import random
 from datetime import datetime, timedelta, timezone
 
 from ..monitors import contracts
+from .c06_header_roundtrip import OtherZone
 from ..monitors.reach import Reach, opt
 
 ID = "C16"
@@ -540,6 +541,11 @@ def hist_mimetype_params(W, ops, prng):
         elif op == "set_weird":
             mp["q"] = 'a"b\\c'
             m["q"] = 'a"b\\c'
+        elif op == "set_tokenish":
+            # values made of token characters plus one character that is not (a URN, host:port, a path, an address)
+            tv = prng.choice(["urn:ietf:x", "host:8080", "a/b", "u@h", "a=b", "x;y", "1,2", "[v]", "a?b", "{}", "sp ace"])
+            mp["start-info"] = tv
+            m["start-info"] = tv
         elif op == "del":
             wrote = "charset" in m
             if wrote:
@@ -588,7 +594,7 @@ def hist_mimetype_params(W, ops, prng):
     return hist
 
 
-MP_OPS = ["set", "set_weird", "del", "pop", "update", "clear", "mimetype", "direct", "mimetype_keep_view", "content_type_keep_view"]
+MP_OPS = ["set", "set_weird", "set_tokenish", "set_tokenish", "del", "pop", "update", "clear", "mimetype", "direct", "mimetype_keep_view", "content_type_keep_view"]
 
 VIEW_TABLE = {
     "cache_control": (hist_cache_control, CC_OPS),
@@ -663,6 +669,10 @@ def scalars(W, rec):
     for name in ("date", "expires", "last_modified"):
         rb(name, dt, dt.replace(microsecond=0, tzinfo=timezone.utc))
         rb(name, aware, aware)
+        # zone objects that are not datetime.timezone instances (zoneinfo / dateutil style), at offset 0 and elsewhere
+        for minutes in (0, 60, -300):
+            other = datetime(2020, 1, 2, 3, 4, 5, tzinfo=OtherZone(minutes))
+            rb(name, other, other)
         rb(name, 0, datetime(1970, 1, 1, tzinfo=timezone.utc))
         rb(name, 1577934245.9, datetime(2020, 1, 2, 3, 4, 5, tzinfo=timezone.utc))
     rb("age", 5, timedelta(seconds=5))
